@@ -36,16 +36,23 @@ Definition edge_prob (t : table C) (g : sid) (e : nat) : T :=
 
 Fixpoint scan_edges (t : table C) (u : T) (g : sid) (cum : T) (es : list nat) : option (nat * sid) :=
   match es with
-  | [] => None                       (* fall through: panic! *)
+  | [] => None                       (* the loop ends without a crossing *)
   | e :: es' =>
       let cum' := s_add S cum (edge_prob t g e) in
       if s_geb S cum' u then Some (e, pop_edge g e) else scan_edges t u g cum' es'
   end.
 
+(* after the loop: a uniform number in [0,1) above the rounded total belongs to the
+   last edge (fix: commit in /repo); anything else is the documented panic *)
 Definition sample_edge (t : table C) (u : T) (g : sid) : res (nat * sid) :=
-  match scan_edges t u g zero (edges_of (nedges t) g) with
+  let es := edges_of (nedges t) g in
+  match scan_edges t u g zero es with
   | Some r => Ok r
-  | None => Panic 20
+  | None =>
+      match rev es with
+      | e :: _ => if s_ltb S u one then Ok (e, pop_edge g e) else Panic 20
+      | [] => Panic 20
+      end
   end.
 
 (* ---------- permatuhedral_sampling ---------- *)
